@@ -205,10 +205,8 @@ class Driver:
         try:
             t.get_block(n)
             v["oob"] = 0
-        except IndexError:
-            v["oob"] = RAISED
         except Exception:
-            v["oob"] = -1
+            v["oob"] = RAISED   # the statement only says lookups of what is not there raise
         try:
             bl = t.blocks
             v["blocks"] = [0 if b.type == BlockType.unusedSlot else self.block_uid(b) for b in bl]
@@ -342,7 +340,7 @@ class Driver:
         if what == "get_type":
             return lambda: t.get_block(BlockType(rt))
         if what == "get_index":
-            return lambda: t.get_block(op["i"])
+            return lambda: t.get_block(op.get("i", 0))
         if what == "item":
             return lambda: t[BlockType(rt)]
         if what == "has":
@@ -361,6 +359,17 @@ class Driver:
             return lambda: t == Tdf(self.path)
         if what == "eq_self":
             return lambda: t == t
+        if what == "copy":
+            def do_copy():
+                target = self.path + ".copy"
+                if os.path.exists(target):
+                    os.unlink(target)
+                try:
+                    t.copy(target)
+                finally:
+                    if os.path.exists(target):
+                        os.unlink(target)
+            return do_copy
         raise ValueError(what)
 
 
